@@ -137,7 +137,44 @@ func genArrows(rng *rand.Rand, n int, ntypes int) []arrow {
 
 // ruleText renders the right-hand side of rule r with its arrows in tm syntax.
 func (g *cfg) ruleText(r cfgRule, arrows []arrow, typeName func(int) string) string {
+	return g.ruleTextM(r, arrows, typeName, nil)
+}
+
+// genMarks: state markers (.m0 .. .m2) for a rule of n symbols: marks[i] are written in front of symbol i,
+// marks[n] at the end of the rule (more often, and even more often behind a symbol that can be empty).
+// Markers occupy no stack slot and no report position.
+func genMarks(rng *rand.Rand, n int, lastNullable bool) [][]int {
+	marks := make([][]int, n+2)
+	for k := 0; k <= n; k++ {
+		p := 8
+		if k == n {
+			p = 4
+			if lastNullable {
+				p = 2
+			}
+		}
+		if rng.Intn(p) == 0 {
+			marks[k] = append(marks[k], rng.Intn(3))
+		}
+	}
+	if rng.Intn(2) == 0 {
+		marks[n+1] = []int{1} // flag: end markers inside the parentheses of the arrows that end there
+	}
+	return marks
+}
+
+// ruleTextM: ruleText with state markers (see genMarks; nil = none).
+func (g *cfg) ruleTextM(r cfgRule, arrows []arrow, typeName func(int) string, marks [][]int) string {
 	n := len(r.rhs)
+	mark := func(sb *strings.Builder, i int) {
+		if marks == nil {
+			return
+		}
+		for _, m := range marks[i] {
+			fmt.Fprintf(sb, ".m%d ", m)
+		}
+	}
+	endIn := marks != nil && len(marks[n+1]) > 0 && n > 0
 	open := make([][]int, n+1)  // arrows opening before position i (outer first)
 	close := make([][]int, n+1) // arrows closing after position i-1 (inner first)
 	var whole []int
@@ -151,6 +188,9 @@ func (g *cfg) ruleText(r cfgRule, arrows []arrow, typeName func(int) string) str
 	}
 	var sb strings.Builder
 	for i := 0; i <= n; i++ {
+		if i == n && endIn {
+			mark(&sb, n)
+		}
 		for _, k := range close[i] {
 			fmt.Fprintf(&sb, "-> %s ) ", typeName(arrows[k].typ))
 		}
@@ -160,6 +200,7 @@ func (g *cfg) ruleText(r cfgRule, arrows []arrow, typeName func(int) string) str
 		for range open[i] {
 			sb.WriteString("( ")
 		}
+		mark(&sb, i)
 		s := r.rhs[i]
 		if s < g.nterms {
 			fmt.Fprintf(&sb, "'%c' ", g.termChar(s))
@@ -170,6 +211,9 @@ func (g *cfg) ruleText(r cfgRule, arrows []arrow, typeName func(int) string) str
 	if n == 0 {
 		sb.WriteString("%empty ")
 	}
+	if !endIn {
+		mark(&sb, n)
+	}
 	for _, k := range whole {
 		fmt.Fprintf(&sb, "-> %s ", typeName(arrows[k].typ))
 	}
@@ -177,6 +221,11 @@ func (g *cfg) ruleText(r cfgRule, arrows []arrow, typeName func(int) string) str
 }
 
 func (g *cfg) toTMArrows(name string, o tmOpts, arrows [][]arrow, typeName func(int) string) string {
+	return g.toTMArrowsM(name, o, arrows, typeName, nil)
+}
+
+// toTMArrowsM: toTMArrows with state markers per rule (nil = none).
+func (g *cfg) toTMArrowsM(name string, o tmOpts, arrows [][]arrow, typeName func(int) string, marks [][][]int) string {
 	var sb strings.Builder
 	fmt.Fprintf(&sb, "language %s(go);\n\nlang = %q\npackage = \"verifgen/%s\"\neventBased = true\n", name, name, name)
 	if o.optimize {
@@ -215,7 +264,11 @@ func (g *cfg) toTMArrows(name string, o tmOpts, arrows [][]arrow, typeName func(
 			} else {
 				sb.WriteString("\n  | ")
 			}
-			sb.WriteString(g.ruleText(r, arrows[i], typeName))
+			if marks != nil {
+				sb.WriteString(g.ruleTextM(r, arrows[i], typeName, marks[i]))
+			} else {
+				sb.WriteString(g.ruleText(r, arrows[i], typeName))
+			}
 		}
 		if !first {
 			sb.WriteString("\n;\n\n")
@@ -224,13 +277,77 @@ func (g *cfg) toTMArrows(name string, o tmOpts, arrows [][]arrow, typeName func(
 	return sb.String()
 }
 
+// withNullableTail: a copy of g with a fresh terminal z and a fresh nonterminal T : z | %empty, appended as the last
+// symbol to one or two rules (a tail that can be empty; the fresh terminal keeps the grammar conflict-free).
+func (g *cfg) withNullableTail(rng *rand.Rand) *cfg {
+	sh := func(s int) int {
+		if s >= g.nterms {
+			return s + 1
+		}
+		return s
+	}
+	ng := &cfg{nterms: g.nterms + 1, nnonterms: g.nnonterms + 1}
+	z, tail := g.nterms, g.nterms+1+g.nnonterms
+	var cands []int
+	for i, r := range g.rules {
+		nr := cfgRule{lhs: sh(r.lhs)}
+		for _, s := range r.rhs {
+			nr.rhs = append(nr.rhs, sh(s))
+		}
+		ng.rules = append(ng.rules, nr)
+		if len(r.rhs) > 0 && len(r.rhs) < 5 {
+			cands = append(cands, i)
+		}
+	}
+	for _, in := range g.inputs {
+		ng.inputs = append(ng.inputs, cfgInput{nt: sh(in.nt), eoi: in.eoi})
+	}
+	if len(cands) == 0 {
+		return g
+	}
+	for k := 1 + rng.Intn(2); k > 0; k-- {
+		i := cands[rng.Intn(len(cands))]
+		if n := len(ng.rules[i].rhs); ng.rules[i].rhs[n-1] != tail {
+			ng.rules[i].rhs = append(ng.rules[i].rhs, tail)
+		}
+	}
+	if rng.Intn(2) == 0 {
+		ng.rules = append(ng.rules, cfgRule{lhs: tail, rhs: []int{z}}, cfgRule{lhs: tail})
+	} else {
+		ng.rules = append(ng.rules, cfgRule{lhs: tail}, cfgRule{lhs: tail, rhs: []int{z}})
+	}
+	return ng
+}
+
+// nullableSyms: which symbols derive the empty string.
+func (g *cfg) nullableSyms() []bool {
+	nl := make([]bool, g.nterms+g.nnonterms)
+	for changed := true; changed; {
+		changed = false
+		for _, r := range g.rules {
+			if nl[r.lhs] {
+				continue
+			}
+			all := true
+			for _, s := range r.rhs {
+				all = all && nl[s]
+			}
+			if all {
+				nl[r.lhs] = true
+				changed = true
+			}
+		}
+	}
+	return nl
+}
+
 func c02Random(rng *rand.Rand, n int, args []string) {
 	typeName := func(i int) string { return fmt.Sprintf("T%02d", i) }
 	const ntypes = 6
 	var pkgs []*genPkg
 	var grammars []*cfg
 	var arrowsOf [][][]arrow
-	var fixws []bool
+	var fixws, hasMarks []bool
 	tried := 0
 	for len(pkgs) < n && tried < 40*n {
 		tried++
@@ -241,6 +358,9 @@ func c02Random(rng *rand.Rand, n int, args []string) {
 		g := genCFG(rng, k).reduced()
 		if g == nil || len(g.rules) == 0 {
 			continue
+		}
+		if rng.Intn(2) == 0 {
+			g = g.withNullableTail(rng)
 		}
 		t, err := lalr.Compile(g.toLalr(), lalr.Options{})
 		if err != nil || t == nil || t.SR+t.RR > 0 {
@@ -264,8 +384,18 @@ func c02Random(rng *rand.Rand, n int, args []string) {
 		if fw {
 			o.extra = append(o.extra, "fixWhitespace = true")
 		}
+		// state markers in two grammars of three: at any position, also at the end of a rule and behind nullable symbols
+		var marks [][][]int
+		if rng.Intn(3) != 0 {
+			nullable := g.nullableSyms()
+			marks = make([][][]int, len(g.rules))
+			for i, r := range g.rules {
+				marks[i] = genMarks(rng, len(r.rhs), len(r.rhs) > 0 && nullable[r.rhs[len(r.rhs)-1]])
+			}
+		}
 		name := fmt.Sprintf("e%04d", len(pkgs))
-		pkgs = append(pkgs, &genPkg{name: name, tm: g.toTMArrows(name, o, ar, typeName), driver: plainDriver(g)})
+		pkgs = append(pkgs, &genPkg{name: name, tm: g.toTMArrowsM(name, o, ar, typeName, marks), driver: plainDriver(g)})
+		hasMarks = append(hasMarks, marks != nil)
 		grammars = append(grammars, g)
 		arrowsOf = append(arrowsOf, ar)
 		fixws = append(fixws, fw)
@@ -387,6 +517,24 @@ func c02Random(rng *rand.Rand, n int, args []string) {
 		in := sx.List(tmGrammarStr(p.g), tablesOf(gp.Tables), sx.List(evs...), sx.List(ars...), sx.Bool(fixws[i]), sx.List(ins...))
 		sx.Case("c02.events", in, sx.List(outs...))
 		sx.Stat(fmt.Sprintf("fixws_%v", fixws[i]), 1)
+		for _, r := range gp.Rules {
+			for k := len(r.RHS) - 1; k >= 0; k-- {
+				if !r.RHS[k].IsStateMarker() {
+					if p.g.Syms[r.RHS[k]].CanBeNull {
+						sx.Stat("rules_with_nullable_tail", 1)
+					}
+					break
+				}
+			}
+		}
+		if hasMarks[i] {
+			sx.Stat("with_state_markers", 1)
+			for _, r := range gp.Rules {
+				if k := len(r.RHS); k > 1 && r.RHS[k-1].IsStateMarker() && !r.RHS[k-2].IsStateMarker() && p.g.Syms[r.RHS[k-2]].CanBeNull {
+					sx.Stat("rules_with_marker_behind_nullable_tail", 1)
+				}
+			}
+		}
 	}
 	sx.Stat("grammars_tried", tried)
 }
